@@ -141,6 +141,34 @@ def gen_player(rng, pid: str, t0: int, streams: list[str], *, templates: list[st
             "latency": {"min_us": 0, "jitter_us": 0}, "script": script}
 
 
+def add_twin_requests(rng, actors: list[dict], streams: list[str], with_defaults: str) -> None:
+    """One observer asks for the same manifest, with the very same query, first from the stream that carries stored
+    defaults and then from another stream, at the same instant: the media URLs of both carry equal query strings
+    that mean different things, and whatever the server remembers of the first must not leak into the second."""
+    others = [s for s in streams if s != with_defaults]
+    if not others or not actors or rng.random() >= 0.7:
+        return
+    other = rng.choice(others)
+    a = actors[0]
+    if any(k in st.get("q", {}) for st in a["script"] for k in ("drm", "events")):
+        return
+    out = []
+    for i, st in enumerate(a["script"]):
+        if st["op"] == "manifest":
+            nxt = a["script"][i + 1] if i + 1 < len(a["script"]) and a["script"][i + 1]["op"] == "segments" else None
+            parts = st["path"].split("/")
+            for stream in (with_defaults, other):
+                parts[3] = stream
+                out.append({**st, "path": "/".join(parts)})
+                if nxt is not None:
+                    out.append(dict(nxt))
+        elif st["op"] == "segments" and out and out[-1]["op"] == "segments":
+            continue
+        else:
+            out.append(st)
+    a["script"] = out
+
+
 def generate_live(prop: str, seed: int, tier: str, index: int, *, templates=None, richness=0.5,
                   wakeups=(2, 5), seg_cap=60, select=None, extra_force=None, young_ok=True,
                   encrypted_ok=True, events_ok=True, forge_p=0.45) -> dict:
@@ -178,6 +206,7 @@ def generate_live(prop: str, seed: int, tier: str, index: int, *, templates=None
         # one stream carries stored option defaults (its URLs omit values equal to them; every endpoint must apply
         # them - and only to that stream)
         world["defaults"] = {rng.choice(streams): rng.choice([{"depth": "30"}, {"depth": "40", "mup": "4"}])}
+        add_twin_requests(base.rng_for(seed, "gen-twin"), actors, streams, next(iter(world["defaults"])))
     return {
         "property": prop, "seed": seed, "index": index, "tier": tier, "hashseed": index % base.HASHSEEDS,
         "t0_us": t0, "sched_seed": rng.getrandbits(32),
